@@ -14,7 +14,7 @@ AsFn(q) == [i \in BI |-> q[i]]
 
 StepT ==
   LET R == T[tid]  i == l + 1  st == R.steps[i]
-      G2 == UNION {Succ(x, st.op, AsFn(st.blocks), AsFn(st.orig), AsFn(st.mlblocks)) : x \in G}
+      G2 == UNION {Succ(x, st.op, AsFn(st.blocks), AsFn(st.orig), AsFn(st.mlblocks), AsFn(st.addblocks)) : x \in G}
   IN
   /\ verdict = "running" /\ l < Len(R.steps) /\ l' = i /\ UNCHANGED tid
   /\ G' = G2
